@@ -580,7 +580,7 @@ func (r *Run) verifIntrinsic(st *State, fn *ssa.Function, a []Value, pos token.P
 		st.Ghost["ropen"] = smt.BV(n, 64)
 		st.setRope(n, ropeVal{})
 		return []Value{smt.BV(n, 64)}, true, nil
-	case "verifRopeAppend", "verifRopeAppendByte", "verifRopeTrunc", "verifRopeInsert", "verifRopeMove", "verifRopeLen", "verifRopeMatch", "verifRopeByte":
+	case "verifRopeAppend", "verifRopeAppendByte", "verifRopeTrunc", "verifRopeInsert", "verifRopeMove", "verifRopeMoveCommitted", "verifRopeLen", "verifRopeMatch", "verifRopeByte":
 		idT, err := termArg(a[0])
 		if err != nil || !idT.IsConst() {
 			return nil, true, unknownf("rope id must be concrete")
@@ -614,6 +614,10 @@ func (r *Run) verifIntrinsic(st *State, fn *ssa.Function, a []Value, pos token.P
 			var np []ropePiece
 			pre := zero64
 			for _, pc := range rp.p {
+				if pc.committed {
+					np = append(np, pc)
+					continue
+				}
 				// keep = clamp(n - pre, 0, pc.n)
 				rem := smt.Sub(n, pre)
 				keep := smt.Ite(smt.SLe(rem, zero64), zero64, smt.Ite(smt.SLt(pc.n, rem), pc.n, rem))
@@ -644,7 +648,7 @@ func (r *Run) verifIntrinsic(st *State, fn *ssa.Function, a []Value, pos token.P
 			np = append(np, tails...)
 			st.setRope(idT.C, ropeVal{p: np})
 			return nil, true, nil
-		case "verifRopeMove":
+		case "verifRopeMove", "verifRopeMoveCommitted":
 			srcT, err := termArg(a[1])
 			if err != nil || !srcT.IsConst() {
 				return nil, true, unknownf("rope id must be concrete")
@@ -653,7 +657,15 @@ func (r *Run) verifIntrinsic(st *State, fn *ssa.Function, a []Value, pos token.P
 			if !ok {
 				return nil, true, unknownf("unknown rope")
 			}
-			np := append(append([]ropePiece(nil), rp.p...), src.p...)
+			np := append([]ropePiece(nil), rp.p...)
+			for _, pc := range src.p {
+				if name == "verifRopeMoveCommitted" {
+					pc.committed = true
+				} else if idT.C != srcT.C {
+					pc.committed = false
+				}
+				np = append(np, pc)
+			}
 			st.setRope(idT.C, ropeVal{p: np})
 			st.setRope(srcT.C, ropeVal{})
 			return nil, true, nil
@@ -677,6 +689,25 @@ func (r *Run) verifIntrinsic(st *State, fn *ssa.Function, a []Value, pos token.P
 			return []Value{r.ropeByte(rp, pos)}, true, nil
 		}
 		return nil, true, unknownf("rope op")
+	case "verifRopePrefix":
+		// (a, b int, n int) bool: rope b (n bytes) equals the first n bytes of rope a
+		ia, e1 := termArg(a[0])
+		ib, e2 := termArg(a[1])
+		if e1 != nil || e2 != nil || !ia.IsConst() || !ib.IsConst() {
+			return nil, true, unknownf("rope ids must be concrete")
+		}
+		ra, ok1 := st.rope(ia.C)
+		rb, ok2 := st.rope(ib.C)
+		if !ok1 || !ok2 {
+			return nil, true, unknownf("unknown rope")
+		}
+		acc := smt.True
+		pos := zero64
+		for _, pc := range rb.p {
+			acc = smt.And(acc, r.ropeMatch(st, ra, pos, pc.c, pc.off, pc.n))
+			pos = smt.Add(pos, pc.n)
+		}
+		return []Value{acc}, true, nil
 	case "verifIsConcrete":
 		t, err := termArg(a[0])
 		if err != nil {
@@ -715,7 +746,7 @@ func (r *Run) assert(st *State, c *smt.Term, label string, pos token.Pos) {
 		r.Notes = append(r.Notes, "assertion "+label+" at "+st.pos(pos)+": solver unknown")
 	case smt.Sat:
 		r.Violations = append(r.Violations, Violation{Label: label, Pos: st.pos(pos), Model: m,
-			Nondets: append([]Nondet(nil), st.Nondets...), Log: st.Log, Stack: st.stack()})
+			Nondets: append([]Nondet(nil), st.Nondets...), Log: st.Log, Stack: st.stack(), History: st.History()})
 	}
 	if len(r.Samples) < 6 {
 		r.Samples = append(r.Samples, fmt.Sprintf("%s @%s: %s", label, st.pos(pos), res))
